@@ -308,3 +308,82 @@ func ZZ_C15_Par() {
 		vAssert(m.Size() == 0, "c15.par.canary")
 	}
 }
+
+func init() { vRegister("ZZ_C15_SparseResize", ZZ_C15_SparseResize) }
+
+// zzChainKeys returns, per bucket of root bucket 0's chain, the keys stored there.
+func zzChainKeys(m *Map[int, int, *zzNode]) [][]int {
+	t := m.table.Load()
+	var out [][]int
+	for b := &t.buckets[0]; b != nil; b = b.next.Load() {
+		var ks []int
+		for i := 0; i < nodesPerMapBucket; i++ {
+			if p := b.nodes[i]; p != nil {
+				ks = append(ks, (*zzNode)(p).k)
+			}
+		}
+		out = append(out, ks)
+	}
+	return out
+}
+
+// ZZ_C15_SparseResize: nothing is lost across a resize of a table whose overflow chains have holes. `keys` keys collide
+// in one root bucket (a chain of up to three buckets); then, per chain bucket, the engine chooses whether to delete none,
+// some (all but the first) or all of its keys — deletes never unlink overflow buckets, so emptied buckets stay in the
+// middle of the chain; then the table is grown, shrunk back or cleared through the real resize (serial copy; with
+// parallel=1 the table is large enough for the copy to be split over goroutines, copyBucketWithDestLock), and the map
+// oracle is compared (Get of every key, Size, Range).
+func ZZ_C15_SparseResize() {
+	size := 0
+	if vParam("parallel") == 1 {
+		size = 64 * nodesPerMapBucket // a 128-bucket table: large enough for the parallel copy
+	}
+	m := zzNewMap(size)
+	nk := vParam("keys")
+	ks := zzColliding(m, nk)
+	model := map[int]int{}
+	for _, k := range ks {
+		zzPut(m, k, k+1)
+		model[k] = k + 1
+	}
+	chain := zzChainKeys(m)
+	vAssert(len(chain) == (nk+nodesPerMapBucket-1)/nodesPerMapBucket, "c15.sparse.chain_length")
+	sc := ""
+	for bi, bks := range chain {
+		switch vChoice("hole", 3) {
+		case 0:
+			sc += "keep;"
+		case 1:
+			sc += "thin;"
+			for _, k := range bks[1:] {
+				zzDel(m, k)
+				delete(model, k)
+			}
+		case 2:
+			sc += "empty;"
+			for _, k := range bks {
+				zzDel(m, k)
+				delete(model, k)
+			}
+		}
+		_ = bi
+	}
+	hint := vChoice("resize", 2)
+	hn := []string{"grow", "shrink"}
+	vScenario(sc + hn[hint])
+	zzAudit(m, model, ks, "c15.sparse.before")
+	t0 := m.table.Load()
+	switch hint {
+	case 0:
+		m.resize(t0, mapGrowHint)
+		vAssert(len(m.table.Load().buckets) == 2*len(t0.buckets), "c15.sparse.grew")
+	case 1:
+		// grow first so that a shrink is possible, then shrink back (the shrink copies the sparse chains again if the
+		// rehash left any; the growth already had to copy them)
+		m.resize(t0, mapGrowHint)
+		zzAudit(m, model, ks, "c15.sparse.after_grow")
+		t1 := m.table.Load()
+		m.resize(t1, mapShrinkHint)
+	}
+	zzAudit(m, model, ks, "c15.sparse.nothing_lost_across_resize")
+}
